@@ -322,6 +322,13 @@ func cause(c *Case, res *Result, idx int) string {
 	}
 	add(s.txs > 0, "tx")
 	add(res.PrimaryWALs > 1, "rotation")
+	lw := 0
+	for _, o := range c.Phases[len(c.Phases)-1].Ops {
+		if o.Op != "flush" {
+			lw++
+		}
+	}
+	add(lw == 1, "singlelastwrite")
 	if idx >= 0 && idx < len(c.Replicas) {
 		rp := c.Replicas[idx]
 		add(rp.RestartAt >= 0, "restart")
@@ -329,14 +336,6 @@ func cause(c *Case, res *Result, idx int) string {
 		add(rp.JoinAt > 0 && rp.JoinAt < len(c.Phases), "midjoin")
 	}
 	add(s.second, "tworeplicas")
-	if lw := 0; true {
-		for _, o := range c.Phases[len(c.Phases)-1].Ops {
-			if o.Op != "flush" {
-				lw++
-			}
-		}
-		add(lw == 1, "singlelastwrite")
-	}
 	if out == "" {
 		out = "plain"
 	}
